@@ -1,22 +1,50 @@
 #!/bin/bash
-# seed_pipeline.sh <seeds root> <suffix map a->c b->d>: validates, collects and runs the matrix for every
-# delivered seed under <root>/<PROP>/{a,b} that has not been processed yet.  Loops until stopped.
-ROOT=${1:-/tmp/seeds2}
+# seed_pipeline.sh <mode> <root>: mode=validate | matrix.  Two loops run side by side:
+#  validate: full validation of each delivered seed (tools/validate_seed.sh), then collect into /verif/seeded
+#  matrix:   as soon as a seed is delivered, run the property's quick check on a scratch worktree with the
+#            patch (tools/try_seed.sh) and keep the result in <seed dir>/matrix.json; merged on collect.
+MODE=$1; ROOT=${2:-/tmp/seeds2}
 while true; do
   for d in $ROOT/C*/a $ROOT/C*/b; do
     [ -f $d/patch.diff ] && [ -f $d/meta.json ] || continue
-    [ -f $d/.done ] && continue
     prop=$(basename $(dirname $d)); x=$(basename $d)
     case $x in a) sfx=c;; b) sfx=d;; esac
     id=$prop-$sfx
-    echo "== $id $(date +%H:%M)"
-    SUITE_P=6 /verif/tools/validate_seed.sh $d $id > $d/val.log 2>&1
-    if python3 /verif/tools/collect_seed.py $d $id; then
-      (cd /verif && W=8 ./tools/seed_matrix.sh $id)
+    if [ $MODE = validate ]; then
+      [ -f $d/.validated ] && continue
+      echo "== validate $id $(date +%H:%M)"
+      SUITE_P=6 /verif/tools/validate_seed.sh $d $id > $d/val.log 2>&1
+      python3 /verif/tools/collect_seed.py $d $id || echo "$id NOT VALID: $(tr -d '\n' < $d/validation.json)"
+      touch $d/.validated
     else
-      echo "$id not valid: $(cat $d/validation.json | tr -d '\n')"
+      [ -f $d/.matrixed ] && continue
+      echo "== matrix $id $(date +%H:%M)"
+      log=/tmp/try/matrix-$id.log; mkdir -p /tmp/try
+      (cd /verif && ./tools/try_seed.sh $d $prop --workers 8 > $log 2>&1)
+      ex=$(grep '^exit=' $log | tail -1 | cut -d= -f2)
+      viol=$(grep -A1 '^VIOLATION property' $log | grep 'obligation=' | sed 's/^ *//' | cut -d' ' -f1,2 | sort -u | head -5 | tr '\n' ';')
+      python3 - "$d" "$prop" "$ex" "$viol" <<'PY'
+import json,sys
+d,prop,ex,viol=sys.argv[1:5]
+json.dump({"check":f"/verif/check {prop} quick (run on a scratch worktree with the patch applied)","exit":ex,"violations":viol,"detected":ex=="1"},open(d+'/matrix.json','w'),indent=1)
+print("  ",d,"exit",ex,viol[:200])
+PY
+      touch $d/.matrixed
     fi
-    touch $d/.done
   done
-  sleep 120
+  # merge matrix results into collected seeds
+  if [ $MODE = matrix ]; then
+    for d in $ROOT/C*/a $ROOT/C*/b; do
+      [ -f $d/matrix.json ] || continue
+      prop=$(basename $(dirname $d)); x=$(basename $d); case $x in a) sfx=c;; b) sfx=d;; esac
+      m=/verif/seeded/$prop-$sfx/meta.json
+      [ -f $m ] && python3 - "$m" "$d/matrix.json" <<'PY'
+import json,sys
+m=json.load(open(sys.argv[1])); x=json.load(open(sys.argv[2]))
+if m.get('detected_by')!=x:
+    m['detected_by']=x; json.dump(m,open(sys.argv[1],'w'),indent=1)
+PY
+    done
+  fi
+  sleep 90
 done
